@@ -1460,4 +1460,12 @@ pub(crate) mod verif_hooks {
             timestamp,
         )
     }
+
+    pub(crate) fn is_self_attested(
+        referent: &str,
+        info: &AttributeInfo,
+        self_attested_attrs: &HashSet<String>,
+    ) -> bool {
+        super::is_self_attested(referent, info, self_attested_attrs)
+    }
 }
